@@ -60,6 +60,8 @@ class set_type(DataStreamProcessor):
     def process_datapackage(self, dp):
         dp = super(set_type, self).process_datapackage(dp)
         self.matcher = ResourceMatcher(self.resources, dp)
+        # the matched field names belong to this package: nothing is carried over from an earlier use of the step
+        self.field_names = {}
         added = False
         for res in dp.descriptor['resources']:
             if self.matcher.match(res['name']):
